@@ -154,6 +154,8 @@ where
             self.record_read_op(op, now)
                 .expect("Failed to record a get op");
         };
+        #[cfg(mini_moka_verif)]
+        crate::verif::sp("get.begin");
         let now = self.inner.current_time_from_expiration_clock();
 
         match self.inner.get(key) {
@@ -255,8 +257,19 @@ where
         op: ReadOp<K, V>,
         now: Instant,
     ) -> Result<(), TrySendError<ReadOp<K, V>>> {
+        #[cfg(mini_moka_verif)]
+        crate::verif::sp("read.before_apply");
         self.apply_reads_if_needed(self.inner.as_ref(), now);
         let ch = &self.read_op_ch;
+        #[cfg(mini_moka_verif)]
+        {
+            crate::verif::sp("read.before_send");
+            // Fault point: behave as if the channel had been found full.
+            if crate::verif::buggify("read.drop") || ch.is_full() {
+                crate::verif::probe("read.dropped", 0);
+                return Ok(());
+            }
+        }
         match ch.try_send(op) {
             // Discard the ReadOp when the channel is full.
             Ok(()) | Err(TrySendError::Full(_)) => Ok(()),
@@ -273,6 +286,8 @@ where
     ) -> (WriteOp<K, V>, Instant) {
         let ts = self.inner.current_time_from_expiration_clock();
         let weight = self.inner.weigh(&key, &value);
+        #[cfg(mini_moka_verif)]
+        crate::verif::map_probe(&|| self.inner.cache.try_get_mut(&key).is_locked());
         let mut insert_op = None;
         let mut update_op = None;
 
@@ -496,6 +511,15 @@ where
             .unwrap_or_default();
         let cache =
             dashmap::DashMap::with_capacity_and_hasher(initial_capacity, build_hasher.clone());
+        #[cfg(mini_moka_verif)]
+        let cache = {
+            let _unpinned: CacheStore<K, V, S> = cache;
+            dashmap::DashMap::with_capacity_and_hasher_and_shard_amount(
+                initial_capacity,
+                build_hasher.clone(),
+                crate::verif::SHARD_AMOUNT,
+            )
+        };
 
         Self {
             max_capacity,
@@ -541,6 +565,8 @@ where
         Arc<K>: Borrow<Q>,
         Q: Hash + Eq + ?Sized,
     {
+        #[cfg(mini_moka_verif)]
+        crate::verif::map_probe(&|| self.cache.try_get_mut(key).is_locked());
         self.cache
             .remove(key)
             .map(|(key, entry)| KvEntry::new(key, entry))
@@ -648,7 +674,11 @@ where
     S: BuildHasher + Clone + Send + Sync + 'static,
 {
     fn sync(&self, max_repeats: usize) {
+        #[cfg(mini_moka_verif)]
+        let _verif_scope = crate::verif::lock_scope("deques");
         let mut deqs = self.deques.lock().expect("lock poisoned");
+        #[cfg(mini_moka_verif)]
+        crate::verif::sp("sync.locked");
         let mut calls = 0;
         let mut should_sync = true;
 
@@ -662,6 +692,13 @@ where
                 self.apply_reads(&mut deqs, r_len);
             }
 
+            #[cfg(mini_moka_verif)]
+            {
+                crate::verif::sp("sync.between");
+                if calls > 0 {
+                    crate::verif::probe("sync.repeat", calls as u64);
+                }
+            }
             let w_len = self.write_op_ch.len();
             if w_len > 0 {
                 self.apply_writes(&mut deqs, w_len, &mut counters);
@@ -691,6 +728,8 @@ where
             );
         }
 
+        #[cfg(mini_moka_verif)]
+        crate::verif::sp("sync.publish");
         debug_assert_eq!(self.entry_count.load(), current_ec);
         debug_assert_eq!(self.weighted_size.load(), current_ws);
         self.entry_count.store(counters.entry_count);
@@ -769,6 +808,8 @@ where
         let mut freq = self.frequency_sketch.write().expect("lock poisoned");
         let ch = &self.read_op_ch;
         for _ in 0..count {
+            #[cfg(mini_moka_verif)]
+            crate::verif::sp("sync.read_op");
             match ch.try_recv() {
                 Ok(Hit(hash, entry, timestamp)) => {
                     freq.increment(hash);
@@ -789,6 +830,8 @@ where
         let ch = &self.write_op_ch;
 
         for _ in 0..count {
+            #[cfg(mini_moka_verif)]
+            crate::verif::sp("sync.write_op");
             match ch.try_recv() {
                 Ok(Upsert {
                     key_hash: kh,
@@ -836,6 +879,11 @@ where
         if let Some(max) = self.max_capacity {
             if new_weight as u64 > max {
                 // The candidate is too big to fit in the cache. Reject it.
+                #[cfg(mini_moka_verif)]
+                {
+                    crate::verif::sp("sync.reject");
+                    crate::verif::map_probe(&|| self.cache.try_get_mut(&kh.key).is_locked());
+                }
                 self.cache.remove(&Arc::clone(&kh.key));
                 return;
             }
@@ -853,6 +901,15 @@ where
             } => {
                 // Try to remove the victims from the cache (hash map).
                 for victim in victim_nodes {
+                    #[cfg(mini_moka_verif)]
+                    {
+                        crate::verif::sp("sync.victim");
+                        crate::verif::map_probe(&|| {
+                            self.cache
+                                .try_get_mut(unsafe { victim.as_ref().element.key() })
+                                .is_locked()
+                        });
+                    }
                     if let Some((_vic_key, vic_entry)) =
                         self.cache.remove(unsafe { victim.as_ref().element.key() })
                     {
@@ -862,6 +919,8 @@ where
                         // Could not remove the victim from the cache. Skip this
                         // victim node as its ValueEntry might have been
                         // invalidated. Add it to the skipped nodes.
+                        #[cfg(mini_moka_verif)]
+                        crate::verif::probe("admit.victim_vanished", 0);
                         skipped.push(victim);
                     }
                 }
@@ -873,6 +932,11 @@ where
             AdmissionResult::Rejected { skipped_nodes: s } => {
                 skipped_nodes = s;
                 // Remove the candidate from the cache (hash map).
+                #[cfg(mini_moka_verif)]
+                {
+                    crate::verif::sp("sync.reject");
+                    crate::verif::map_probe(&|| self.cache.try_get_mut(&kh.key).is_locked());
+                }
                 self.cache.remove(&Arc::clone(&kh.key));
             }
         };
@@ -936,6 +1000,8 @@ where
                     // Could not get the victim from the cache (hash map). Skip this node
                     // as its ValueEntry might have been invalidated.
                     skipped_nodes.push(victim);
+                    #[cfg(mini_moka_verif)]
+                    crate::verif::probe("admit.victim_skipped", 0);
 
                     retries += 1;
                     if retries > MAX_CONSECUTIVE_RETRIES {
@@ -1080,6 +1146,11 @@ where
             // expired. This check is needed because it is possible that the entry in
             // the map has been updated or deleted but its deque node we checked
             // above have not been updated yet.
+            #[cfg(mini_moka_verif)]
+            {
+                crate::verif::sp("sync.evict_expired_ao");
+                crate::verif::map_probe(&|| self.cache.try_get_mut(key).is_locked());
+            }
             let maybe_entry = self
                 .cache
                 .remove_if(key, |_, v| is_expired_entry_ao(tti, va, v, now));
@@ -1103,6 +1174,8 @@ where
         if let Some(entry) = self.cache.get(key) {
             if entry.is_dirty() {
                 // The key exists and the entry has been updated.
+                #[cfg(mini_moka_verif)]
+                crate::verif::probe("evict.skip_dirty", 0);
                 Deques::move_to_back_ao_in_deque(deq_name, deq, &entry);
                 Deques::move_to_back_wo_in_deque(write_order_deq, &entry);
                 true
@@ -1115,6 +1188,8 @@ where
             // invalidated ValueEntry (which should be still in the write op
             // queue) has a pointer to this node, move the node to the back of
             // the deque instead of popping (dropping) it.
+            #[cfg(mini_moka_verif)]
+            crate::verif::probe("evict.skip_missing", 0);
             deq.move_front_to_back();
             true
         }
@@ -1146,6 +1221,11 @@ where
 
             let key = key.as_ref().unwrap();
 
+            #[cfg(mini_moka_verif)]
+            {
+                crate::verif::sp("sync.evict_expired_wo");
+                crate::verif::map_probe(&|| self.cache.try_get_mut(key).is_locked());
+            }
             let maybe_entry = self
                 .cache
                 .remove_if(key, |_, v| is_expired_entry_wo(ttl, va, v, now));
@@ -1210,6 +1290,11 @@ where
                 None => break,
             };
 
+            #[cfg(mini_moka_verif)]
+            {
+                crate::verif::sp("sync.evict_lru");
+                crate::verif::map_probe(&|| self.cache.try_get_mut(&key).is_locked());
+            }
             let maybe_entry = self.cache.remove_if(&key, |_, v| {
                 if let Some(lm) = v.last_modified() {
                     lm == ts
@@ -1247,6 +1332,216 @@ where
             self.has_expiration_clock.store(false, Ordering::SeqCst);
             *exp_clock = None;
         }
+    }
+}
+
+//
+// verification hooks (read-only)
+//
+#[cfg(mini_moka_verif)]
+impl<K, V, S> BaseCache<K, V, S>
+where
+    K: Hash + Eq + Send + Sync + 'static,
+    V: Clone + Send + Sync + 'static,
+    S: BuildHasher + Clone + Send + Sync + 'static,
+{
+    pub(crate) fn verif_set_clock(&self, clock: &crate::verif::VerifClock) {
+        let now = Instant::new(clock.now());
+        self.inner
+            .verif_set_expiration_clock(Clock::verif_from_mock(Arc::clone(&clock.mock)));
+        if let Some(hk) = &self.housekeeper {
+            hk.verif_rebase(now);
+        }
+    }
+
+    pub(crate) fn verif_estimate(&self, key: &K) -> u8 {
+        let hash = self.inner.build_hasher.hash_one(key);
+        self.inner
+            .frequency_sketch
+            .read()
+            .expect("lock poisoned")
+            .frequency(hash)
+    }
+
+    pub(crate) fn verif_snapshot(
+        &self,
+        base: std::time::Instant,
+        key_id: &dyn Fn(&K) -> u64,
+        val_id: &dyn Fn(&V) -> u64,
+    ) -> crate::verif::Snapshot {
+        self.inner.verif_snapshot(base, key_id, val_id)
+    }
+}
+
+#[cfg(mini_moka_verif)]
+impl<K, V, S> Inner<K, V, S>
+where
+    K: Hash + Eq + Send + Sync + 'static,
+    V: Send + Sync + 'static,
+    S: BuildHasher + Clone + Send + Sync + 'static,
+{
+    fn verif_set_expiration_clock(&self, clock: Clock) {
+        let mut exp_clock = self.expiration_clock.write().expect("lock poisoned");
+        *exp_clock = Some(clock);
+        self.has_expiration_clock.store(true, Ordering::SeqCst);
+    }
+
+    fn verif_snapshot(
+        &self,
+        base: std::time::Instant,
+        key_id: &dyn Fn(&K) -> u64,
+        val_id: &dyn Fn(&V) -> u64,
+    ) -> crate::verif::Snapshot {
+        use crate::verif::{SnapEntry, SnapNode, Snapshot};
+        use std::collections::HashMap;
+
+        let deqs = self.deques.lock().expect("lock poisoned");
+        let mut snap = Snapshot {
+            entry_count: self.entry_count.load(),
+            weighted_size: self.weighted_size.load(),
+            window_len: deqs.window.verif_len(),
+            protected_len: deqs.protected.verif_len(),
+            read_queue_len: self.read_op_ch.len(),
+            write_queue_len: self.write_op_ch.len(),
+            sketch_enabled: self.frequency_sketch_enabled.load(Ordering::Acquire),
+            ..Default::default()
+        };
+
+        // Walk the deques first: only nodes reached through well-formed links are
+        // ever dereferenced below.
+        let ao_nodes = deqs.probation.verif_walk("probation", &mut snap.errors);
+        let wo_nodes = deqs.write_order.verif_walk("write_order", &mut snap.errors);
+        deqs.window.verif_walk("window", &mut snap.errors);
+        deqs.protected.verif_walk("protected", &mut snap.errors);
+
+        // node address -> (key id, info address)
+        let mut ao_index = HashMap::new();
+        for n in &ao_nodes {
+            let elem = &unsafe { n.as_ref() }.element;
+            let node = SnapNode {
+                key: key_id(elem.key()),
+                info: elem.entry_info() as *const EntryInfo<K> as usize,
+            };
+            ao_index.insert(n.as_ptr() as usize, node.clone());
+            snap.probation.push(node);
+        }
+        let mut wo_index = HashMap::new();
+        for n in &wo_nodes {
+            let elem = &unsafe { n.as_ref() }.element;
+            let node = SnapNode {
+                key: key_id(elem.key()),
+                info: elem.verif_info_ptr(),
+            };
+            wo_index.insert(n.as_ptr() as usize, node.clone());
+            snap.write_order.push(node);
+        }
+
+        let rel = |t: Option<Instant>| t.map(|t| t.verif_nanos_since(base));
+        let wo_enabled = self.is_write_order_queue_enabled();
+
+        for r in self.cache.iter() {
+            let (key, entry) = (r.key(), r.value());
+            let kid = key_id(key);
+            let info = &**entry.entry_info() as *const EntryInfo<K> as usize;
+            let ao = entry.access_order_q_node();
+            let wo = entry.write_order_q_node();
+            let e = SnapEntry {
+                key: kid,
+                value: val_id(&entry.value),
+                weight: entry.policy_weight(),
+                admitted: entry.is_admitted(),
+                dirty: entry.is_dirty(),
+                last_accessed: rel(entry.last_accessed()),
+                last_modified: rel(entry.last_modified()),
+                has_ao_node: ao.is_some(),
+                has_wo_node: wo.is_some(),
+                info,
+            };
+            if let Some(tagged) = ao {
+                let (node, tag) = tagged.decompose();
+                match ao_index.get(&(node.as_ptr() as usize)) {
+                    None => snap.errors.push(format!(
+                        "entry {}: access-order node pointer is not a node of the probation deque (dangling)",
+                        kid
+                    )),
+                    Some(n) => {
+                        if tag != CacheRegion::MainProbation as usize {
+                            snap.errors.push(format!("entry {}: wrong region tag {}", kid, tag));
+                        }
+                        if n.key != kid {
+                            snap.errors.push(format!(
+                                "entry {}: its access-order node carries key {}",
+                                kid, n.key
+                            ));
+                        }
+                        if n.info != info {
+                            snap.errors.push(format!(
+                                "entry {}: its access-order node belongs to another incarnation",
+                                kid
+                            ));
+                        }
+                    }
+                }
+            }
+            if let Some(node) = wo {
+                match wo_index.get(&(node.as_ptr() as usize)) {
+                    None => snap.errors.push(format!(
+                        "entry {}: write-order node pointer is not a node of the write-order deque (dangling)",
+                        kid
+                    )),
+                    Some(n) => {
+                        if n.key != kid || n.info != info {
+                            snap.errors.push(format!(
+                                "entry {}: its write-order node belongs to key {} / another incarnation",
+                                kid, n.key
+                            ));
+                        }
+                    }
+                }
+            }
+            if e.admitted != e.has_ao_node {
+                snap.errors.push(format!(
+                    "entry {}: admitted={} but has_ao_node={}",
+                    kid, e.admitted, e.has_ao_node
+                ));
+            }
+            if wo_enabled && e.admitted != e.has_wo_node {
+                snap.errors.push(format!(
+                    "entry {}: admitted={} but has_wo_node={}",
+                    kid, e.admitted, e.has_wo_node
+                ));
+            }
+            if !e.admitted {
+                snap.strict_errors
+                    .push(format!("entry {}: resident but not admitted", kid));
+            }
+            snap.entries.push(e);
+        }
+
+        // Strict direction: every node must belong to the entry the map holds now.
+        let by_key: HashMap<u64, usize> = snap.entries.iter().map(|e| (e.key, e.info)).collect();
+        for (name, nodes) in [("probation", &snap.probation), ("write_order", &snap.write_order)] {
+            let mut seen = std::collections::HashSet::new();
+            for n in nodes.iter() {
+                if !seen.insert(n.key) {
+                    snap.strict_errors
+                        .push(format!("{}: two nodes for key {}", name, n.key));
+                }
+                match by_key.get(&n.key) {
+                    None => snap.strict_errors.push(format!(
+                        "{}: node for key {} which is not in the map",
+                        name, n.key
+                    )),
+                    Some(info) if *info != n.info => snap.strict_errors.push(format!(
+                        "{}: node for key {} belongs to an older incarnation",
+                        name, n.key
+                    )),
+                    _ => {}
+                }
+            }
+        }
+        snap.entries.sort_by_key(|e| e.key);
+        snap
     }
 }
 
